@@ -1059,7 +1059,20 @@ fn boundary_move(tys: &[Ty], vals: &[V], rng: &mut Rng) -> Option<Vec<V>> {
                 V::Str(s) => s.clone(),
                 _ => unreachable!(),
             };
+            // a string that CONTAINS what the joined key puts between two string arguments (quote, separator, quote):
+            // cut there — ("x\"|\"y", b) vs ("x", "y\"|\"b") collide as soon as quotes inside strings are not escaped
+            const SEAM: &str = "\"|\"";
+            let seam_a = a.find(SEAM);
+            let seam_b = b.find(SEAM);
             let (na, nb) = match rng.below(6) {
+                _ if seam_a.is_some() && rng.chance(2, 3) => {
+                    let i = seam_a.unwrap();
+                    (a[..i].to_string(), format!("{}{}{}", &a[i + SEAM.len()..], SEAM, b))
+                }
+                _ if seam_b.is_some() && rng.chance(2, 3) => {
+                    let i = seam_b.unwrap();
+                    (format!("{}{}{}", a, SEAM, &b[..i]), b[i + SEAM.len()..].to_string())
+                }
                 // move the last character of a to the front of b, or the first of b to the end of a
                 0 | 1 if !a.is_empty() => {
                     let mut ca: Vec<char> = a.chars().collect();
